@@ -1,5 +1,6 @@
 import Tickit.Model.RBFlushX
 import Tickit.Proof.TermBuf
+import Tickit.Proof.VT
 /-
   Lemmas for the xterm-driver configuration of C04 (Model/RBFlushX.lean):
    * the output buffer of src/term.c is transparent for the `write_str` calls of a flush, whatever its size
@@ -409,6 +410,287 @@ theorem interp_stdUtf8 (s : XScreen) (hg : s.ps = .ground) (cp : Nat) (hp : Prin
         rw [step_mid s _ _ _ (by omega) (by omega) (by omega)]
         rw [step_last s _ _ (by omega) (by omega), set_ground s hg]
         exact congrArg (XScreen.putCp s) (by omega)
+
+end XScreen
+
+/-! ### `%d` and the VT's decimal reader (the lemmas of C09's Proof/XTermDrv.lean, which this file does not import:
+    that file depends on facts extracted from src/termdriver-xterm.c that C04 does not talk about) -/
+
+open XTermDrv (showNatF showNat showInt csi gotoAbs signedSeq) in
+theorem showNatF_fuel (n : Nat) : ∀ f g, n < f → n < g → showNatF f n = showNatF g n := by
+  induction n using Nat.strongRecOn with
+  | _ n ih =>
+    intro f g hf hg
+    cases f with
+    | zero => omega
+    | succ f =>
+      cases g with
+      | zero => omega
+      | succ g =>
+        simp only [showNatF]
+        by_cases h : n < 10
+        · simp [h]
+        · simp only [h, if_false]
+          rw [ih (n / 10) (by omega) f g (by omega) (by omega)]
+
+open XTermDrv (showNatF showNat) in
+theorem showNat_eq (n : Nat) :
+    showNat n = if n < 10 then [UInt8.ofNat (48 + n)] else showNat (n / 10) ++ [UInt8.ofNat (48 + n % 10)] := by
+  have e : ∀ m, showNat m = showNatF (m + 1) m := fun _ => rfl
+  rw [e n, showNatF]
+  by_cases h : n < 10
+  · simp only [h, if_true]
+  · simp only [h, if_false]
+    rw [e (n / 10), showNatF_fuel (n / 10) n (n / 10 + 1) (by omega) (by omega)]
+
+theorem digit_isDigit : ∀ k, k < 10 → VT.isDigit (UInt8.ofNat (48 + k)) = true := by decide
+
+theorem digit_toNat : ∀ k, k < 10 → (UInt8.ofNat (48 + k)).toNat - 48 = k := by decide
+
+theorem showNat_ne_nil (n : Nat) : XTermDrv.showNat n ≠ [] := by
+  rw [showNat_eq]; by_cases h : n < 10 <;> simp [h]
+
+theorem showNat_digits (n : Nat) : ∀ b ∈ XTermDrv.showNat n, VT.isDigit b = true := by
+  induction n using Nat.strongRecOn with
+  | _ n ih =>
+    intro b hb
+    rw [showNat_eq] at hb
+    by_cases h : n < 10
+    · simp only [h, if_true, List.mem_singleton] at hb; subst hb; exact digit_isDigit n h
+    · simp only [h, if_false, List.mem_append, List.mem_singleton] at hb
+      cases hb with
+      | inl hb => exact ih (n / 10) (by omega) b hb
+      | inr hb => subst hb; exact digit_isDigit (n % 10) (by omega)
+
+theorem digitsValue_showNat (n : Nat) : VT.digitsValue (XTermDrv.showNat n) 0 = n := by
+  induction n using Nat.strongRecOn with
+  | _ n ih =>
+    rw [showNat_eq]
+    by_cases h : n < 10
+    · simp only [h, if_true, VT.digitsValue, List.foldl_cons, List.foldl_nil, digit_toNat n h]; omega
+    · simp only [h, if_false]
+      rw [VT.digitsValue_append, ih (n / 10) (by omega)]
+      simp only [VT.digitsValue, List.foldl_cons, List.foldl_nil, digit_toNat (n % 10) (by omega)]
+      omega
+
+theorem paramVal_showNat (n : Nat) : VT.paramVal (XTermDrv.showNat n) = some n := by
+  simp [VT.paramVal, showNat_ne_nil, digitsValue_showNat]
+
+theorem showInt_of_nonneg {i : Int} (h : 0 ≤ i) : XTermDrv.showInt i = XTermDrv.showNat i.toNat := by
+  simp [XTermDrv.showInt, Int.not_lt.mpr h]
+
+/-! ### The screen reads the driver's control sequences as the cursor movements and erasures they stand for -/
+
+namespace XScreen
+open VT (CsiAcc classify isDigit digitsValue paramVal joinParams accParams)
+
+@[simp] theorem interp_nil (s : XScreen) : s.interp [] = s := rfl
+@[simp] theorem interp_cons (s : XScreen) (b : UInt8) (bs : Bytes) : s.interp (b :: bs) = (s.step b).interp bs := rfl
+theorem interp_append (s : XScreen) (a b : Bytes) : s.interp (a ++ b) = (s.interp a).interp b := by
+  simp [interp, List.foldl_append]
+
+theorem set_ps_self (s : XScreen) (p : VT.PState) (h : s.ps = p) : { s with ps := p } = s := by
+  cases s; simp_all
+
+theorem interp_digits (ds : Bytes) (hd : ∀ b ∈ ds, isDigit b = true) (s : XScreen) (a : CsiAcc)
+    (hi : a.inter = []) (hne : ds ≠ []) :
+    ({ s with ps := .csi a } : XScreen).interp ds =
+      { s with ps := .csi { a with cur := some (digitsValue ds (a.cur.getD 0)) } } := by
+  induction ds generalizing a with
+  | nil => exact absurd rfl hne
+  | cons b rest ih =>
+    have hb : isDigit b = true := hd b (by simp)
+    have hstep : ({ s with ps := .csi a } : XScreen).step b =
+        { s with ps := .csi { a with cur := some (a.cur.getD 0 * 10 + (b.toNat - 48)) } } := by
+      simp [step, csiByte, VT.classify_digit hb, hi]
+    rw [interp_cons, hstep]
+    by_cases hr : rest = []
+    · subst hr; simp [digitsValue]
+    · rw [ih (fun x hx => hd x (by simp [hx])) _ (by simpa using hi) hr]
+      simp [digitsValue]
+
+theorem interp_param (p : Bytes) (hd : ∀ b ∈ p, isDigit b = true) (s : XScreen) (a : CsiAcc)
+    (hi : a.inter = []) (hc : a.cur = none) :
+    ({ s with ps := .csi a } : XScreen).interp p = { s with ps := .csi { a with cur := paramVal p } } := by
+  by_cases hp : p = []
+  · subst hp; cases a; simp_all [paramVal]
+  · rw [interp_digits p hd s a hi hp]; simp [paramVal, hp, hc]
+
+theorem interp_params (ps : List Bytes) (hd : ∀ p ∈ ps, ∀ b ∈ p, isDigit b = true) (s : XScreen) (a : CsiAcc)
+    (hi : a.inter = []) (hc : a.cur = none) (hs : a.sub = []) :
+    ({ s with ps := .csi a } : XScreen).interp (joinParams ps) = { s with ps := .csi (accParams a ps) } := by
+  induction ps generalizing a with
+  | nil => simp [joinParams, accParams]
+  | cons p rest ih =>
+    cases rest with
+    | nil =>
+      simp only [joinParams, accParams]
+      exact interp_param p (hd p (by simp)) s a hi hc
+    | cons q rest =>
+      simp only [joinParams, accParams, interp_append]
+      rw [interp_param p (hd p (by simp)) s a hi hc]
+      have hstep : ({ s with ps := .csi { a with cur := paramVal p } } : XScreen).step 0x3b =
+          { s with ps := .csi { a with done := a.done ++ [[paramVal p]], cur := none } } := by
+        have : classify 0x3b = .semi := by decide
+        simp [step, csiByte, this, hi, hs]
+      rw [interp_cons, interp_nil, hstep]
+      exact ih (fun x hx => hd x (by simp [hx])) _ (by simpa using hi) rfl (by simpa using hs)
+
+/-- A complete control sequence `ESC [ p1 ; … ; pn F` read from the ground state is dispatched with exactly those
+    parameters (the twin of C09's `run_csi` for this screen). -/
+theorem interp_csi (s : XScreen) (hg : s.ps = .ground) (ps : List Bytes) (hne : ps ≠ [])
+    (hd : ∀ p ∈ ps, ∀ b ∈ p, isDigit b = true) (f : UInt8) (hf : classify f = .final) :
+    s.interp (0x1b :: 0x5b :: (joinParams ps ++ [f])) = s.dispatch 0 (ps.map fun p => [paramVal p]) [] f := by
+  have h1 : s.step 0x1b = { s with ps := .esc } := by simp [step, hg, groundByte]
+  have h2 : ({ s with ps := .esc } : XScreen).step 0x5b = { s with ps := .csi CsiAcc.empty } := by simp [step]
+  rw [interp_cons, h1, interp_cons, h2, interp_append]
+  rw [interp_params ps hd s CsiAcc.empty rfl rfl rfl]
+  have h3 : ({ s with ps := .csi (accParams CsiAcc.empty ps) } : XScreen).step f =
+      ({ s with ps := .ground } : XScreen).dispatch 0 (ps.map fun p => [paramVal p]) [] f := by
+    have hp := VT.accParams_params CsiAcc.empty ps hne rfl
+    have hq := VT.accParams_priv CsiAcc.empty ps
+    have hr := VT.accParams_inter CsiAcc.empty ps
+    simp only [CsiAcc.empty, List.nil_append] at hp hq hr
+    simp only [step, csiByte, hf, CsiAcc.empty, hp, hq, hr]
+  rw [interp_cons, interp_nil, h3, set_ps_self s _ hg]
+
+end XScreen
+
+namespace XScreen
+open VT (classify paramVal joinParams)
+
+theorem dispatch_cup (s : XScreen) (ps) : s.dispatch 0 ps [] 0x48 = s.moveTo (VT.cnt ps 0 - 1) (VT.cnt ps 1 - 1) := rfl
+theorem dispatch_cuf (s : XScreen) (ps) : s.dispatch 0 ps [] 0x43 = s.moveTo s.row (s.col + VT.cnt ps 0) := rfl
+theorem dispatch_ech (s : XScreen) (ps) : s.dispatch 0 ps [] 0x58 = s.ech (VT.cnt ps 0) := rfl
+
+/-- `ESC [ n F`. -/
+theorem interp_csi_n (s : XScreen) (hg : s.ps = .ground) (n : Int) (hn : 0 ≤ n) (f : UInt8) (hf : classify f = .final) :
+    s.interp (XTermDrv.csi (XTermDrv.showInt n ++ [f])) = s.dispatch 0 [[some n.toNat]] [] f := by
+  have := interp_csi s hg [XTermDrv.showNat n.toNat] (by simp)
+    (by intro p hp b hb; simp at hp; subst hp; exact showNat_digits _ b hb) f hf
+  simpa [XTermDrv.csi, joinParams, showInt_of_nonneg hn, paramVal_showNat] using this
+
+/-- `ESC [ F`. -/
+theorem interp_csi_0 (s : XScreen) (hg : s.ps = .ground) (f : UInt8) (hf : classify f = .final) :
+    s.interp (XTermDrv.csi [f]) = s.dispatch 0 [[none]] [] f := by
+  have := interp_csi s hg [[]] (by simp) (by intro p hp b hb; simp at hp; subst hp; cases hb) f hf
+  simpa [XTermDrv.csi, joinParams, paramVal] using this
+
+/-- `ESC [ a ; b F`. -/
+theorem interp_csi_nn (s : XScreen) (hg : s.ps = .ground) (a b : Int) (ha : 0 ≤ a) (hb : 0 ≤ b) (f : UInt8)
+    (hf : classify f = .final) :
+    s.interp (XTermDrv.csi (XTermDrv.showInt a ++ [0x3b] ++ XTermDrv.showInt b ++ [f])) =
+      s.dispatch 0 [[some a.toNat], [some b.toNat]] [] f := by
+  have := interp_csi s hg [XTermDrv.showNat a.toNat, XTermDrv.showNat b.toNat] (by simp)
+    (by
+      intro p hp x hx
+      simp at hp
+      rcases hp with hp | hp <;> subst hp <;> exact showNat_digits _ x hx) f hf
+  simpa [XTermDrv.csi, joinParams, showInt_of_nonneg ha, showInt_of_nonneg hb, paramVal_showNat] using this
+
+/-- **goto**: the driver's `goto_abs(line, col)` is read as "cursor to (line, col)" (clamped to the screen). -/
+theorem interp_gotoAbs (s : XScreen) (hg : s.ps = .ground) (line col : Int) (hl : 0 ≤ line) (hc : 0 ≤ col) :
+    s.interp (XTermDrv.gotoAbs line col) = s.moveTo line col := by
+  unfold XTermDrv.gotoAbs
+  have h1 : line ≠ -1 := by omega
+  by_cases h2 : col > 0
+  · simp only [h1, h2, ne_eq, not_false_eq_true, and_self, if_true]
+    rw [interp_csi_nn s hg (line + 1) (col + 1) (by omega) (by omega) 0x48 (by decide), dispatch_cup,
+      VT.cnt_toNat0 _ (by omega), VT.cnt_toNat1 _ (by omega)]
+    congr 1 <;> omega
+  · have h3 : col = 0 := by omega
+    subst h3
+    simp only [h1, ne_eq, not_false_eq_true, Int.lt_irrefl, and_false, and_self, if_true, if_false, gt_iff_lt]
+    rw [interp_csi_n s hg (line + 1) (by omega) 0x48 (by decide), dispatch_cup, VT.cnt_toNat0 _ (by omega),
+      VT.cnt_missing1]
+    congr 1 <;> omega
+
+theorem moveTo_ps (s : XScreen) (r c : Int) : (s.moveTo r c).ps = s.ps := rfl
+theorem ech_ps (s : XScreen) (n : Int) : (s.ech n).ps = s.ps := rfl
+
+/-- ECH as the driver writes it (`CSI X` for one cell, `CSI n X` otherwise). -/
+theorem interp_ech (s : XScreen) (hg : s.ps = .ground) (n : Int) (hn : 1 ≤ n) :
+    s.interp (if n = 1 then XTermDrv.csi [0x58] else XTermDrv.csi (XTermDrv.showInt n ++ [0x58])) = s.ech n := by
+  by_cases h1 : n = 1
+  · subst h1
+    simp only [if_true]
+    rw [interp_csi_0 s hg 0x58 (by decide), dispatch_ech, VT.cnt_none0]
+  · simp only [h1, if_false]
+    rw [interp_csi_n s hg n (by omega) 0x58 (by decide), dispatch_ech, VT.cnt_toNat0 _ hn]
+
+/-- CUF as `move_rel(0, n)` writes it. -/
+theorem interp_cuf (s : XScreen) (hg : s.ps = .ground) (n : Int) (hn : 1 ≤ n) :
+    s.interp (XTermDrv.signedSeq n [] 0x43 0x44) = s.moveTo s.row (s.col + n) := by
+  unfold XTermDrv.signedSeq
+  by_cases h1 : n = 1
+  · subst h1
+    simp only [List.nil_append]
+    rw [if_neg (by omega)]
+    simp only [if_true]
+    rw [interp_csi_0 s hg 0x43 (by decide), dispatch_cuf, VT.cnt_none0]
+  · rw [if_pos (by omega)]
+    simp only [List.append_nil]
+    rw [interp_csi_n s hg n (by omega) 0x43 (by decide), dispatch_cuf, VT.cnt_toNat0 _ hn]
+
+end XScreen
+
+theorem call_flatten (bs : Bytes) : (call bs).flatten = bs := by
+  unfold call
+  split
+  · rename_i h; simp at h; simp [h]
+  · simp
+
+/-- **erase, not reverse video**: `erasech(n, moveend)` is read as "blank `n` cells from the cursor in the current
+    background", followed by "cursor right by `n`" exactly when the flush asked for it (`TICKIT_YES`). -/
+theorem interp_erase (s : XScreen) (hg : s.ps = .ground) (n : Int) (hn : 1 ≤ n) (m : MaybeBool) :
+    s.interp (eraseCalls false n m).flatten =
+      if m = .yes then (s.ech n).moveTo s.row (s.col + n) else s.ech n := by
+  unfold eraseCalls
+  rw [if_neg (by omega)]
+  simp only [Bool.not_false, if_true, List.flatten_append, List.flatten_cons, List.flatten_nil, List.append_nil,
+    XScreen.interp_append]
+  rw [XScreen.interp_ech s hg n hn]
+  by_cases hm : m = .yes
+  · simp only [hm, if_true, moveRelCalls, List.flatten_append, call_flatten]
+    have h0 : XTermDrv.signedSeq 0 [] 0x42 0x41 = [] := by simp [XTermDrv.signedSeq]
+    rw [h0, List.nil_append, XScreen.interp_cuf _ (by rw [XScreen.ech_ps]; exact hg) n hn]
+    rfl
+  · simp only [hm, if_false, List.flatten_nil, XScreen.interp_nil]
+
+namespace XScreen
+
+theorem addZeroWidth_ps (s : XScreen) (bs : Bytes) : (s.addZeroWidth bs).ps = s.ps := by
+  unfold addZeroWidth; split <;> rfl
+
+theorem wrap_ps (s : XScreen) : s.wrap.ps = s.ps := by
+  unfold wrap lineFeed; split <;> rfl
+
+theorem putWide_ps (s : XScreen) (bs : Bytes) (w : Int) : (s.putWide bs w).ps = s.ps := by
+  unfold putWide
+  by_cases h : (s.pending = true ∨ s.col + w > s.cols)
+  · simp only [h, if_true]; split <;> exact wrap_ps s
+  · simp only [h, if_false]; split <;> rfl
+
+theorem putCp_ps (s : XScreen) (cp : Nat) : (s.putCp cp).ps = s.ps := by
+  unfold putCp
+  simp only []
+  split
+  · exact addZeroWidth_ps _ _
+  · split
+    · exact putWide_ps _ _ _
+    · split
+      · exact putWide_ps _ _ _
+      · rfl
+
+/-- **text**: a well-formed UTF-8 text of printable code points is read as those code points, printed in order. -/
+theorem interp_text (cps : List Nat) (hp : ∀ cp ∈ cps, Printable cp) (s : XScreen) (hg : s.ps = .ground) :
+    s.interp (cps.flatMap stdUtf8) = cps.foldl putCp s := by
+  induction cps generalizing s with
+  | nil => rfl
+  | cons cp rest ih =>
+    simp only [List.flatMap_cons, interp_append, List.foldl_cons]
+    rw [interp_stdUtf8 s hg cp (hp cp (by simp))]
+    exact ih (fun x hx => hp x (by simp [hx])) _ (by rw [putCp_ps]; exact hg)
 
 end XScreen
 
